@@ -1457,8 +1457,28 @@ func (is IndexSet) measurementNamesByExpr(auth query.FineAuthorizer, expr influx
 			}
 			rhs, err := is.measurementNamesByExpr(auth, e.RHS)
 			if err != nil {
-				lhs.Close()
+				if lhs != nil {
+					lhs.Close()
+				}
 				return nil, err
+			}
+
+			// A nil iterator (e.g. a filter on a system tag such as _tagKey)
+			// stands for the empty set of measurements.
+			if lhs == nil || rhs == nil {
+				if e.Op == influxql.OR {
+					if lhs != nil {
+						return lhs, nil
+					}
+					return rhs, nil
+				}
+				if lhs != nil {
+					lhs.Close()
+				}
+				if rhs != nil {
+					rhs.Close()
+				}
+				return nil, nil
 			}
 
 			mis := MeasurementIterators{lhs, rhs}
